@@ -184,6 +184,7 @@ func checkC09(r *Report) {
 	touchBothFlagsRule(r, p, "C09.e/TOUCH-BOTH-FLAGS")
 	nK := skipCounterRule(r, p, "C09.g/SKIP-COUNTER", "semver")
 	r.floor("C09.g/SKIP-COUNTER", "merge loops (inner index starting at the outer index + 1) in package semver", nK, 1)
+	boundsCopiedRule(r, p, "C09.i/BOUNDS-COPIED")
 	nS := successorRule(r, p, "C09.h/SUCCESSOR")
 	r.floor("C09.h/SUCCESSOR", "successor computations (inc outside the operator desugaring) in package semver", nS, 1)
 	nF := canonFreshRule(r, p, "C09.f/CANON-FRESH")
@@ -602,4 +603,68 @@ func successorRule(r *Report, p *Prog, rule string) int {
 		}
 	}
 	return n
+}
+
+// boundsCopiedRule (C09.i BOUNDS-COPIED): newSpan normalises the versions it is
+// given IN PLACE (wildcards become 0 or infinity, the build tag is cleared).
+// Set.Intersect builds its result from the bounds of its two operands; handing
+// newSpan those very *Version pointers rewrites the operands (and every Set
+// that shares their spans): a set whose bound was written with a wildcard
+// means something else after it has been an argument of Intersect, and
+// concurrent intersections of copies of one constraint race. Every *Version
+// argument of the newSpan call in Intersect is the result of Version.copy().
+func boundsCopiedRule(r *Report, p *Prog, rule string) {
+	f := p.lookupFn("(*semver.Set).Intersect")
+	key := "(*semver.Set).Intersect: the bounds handed to newSpan are copies"
+	if f == nil {
+		r.bad(rule, key, "", "Intersect not found: anchor lost")
+		return
+	}
+	var isCopy func(v ssa.Value, d int) bool
+	isCopy = func(v ssa.Value, d int) bool {
+		if d > 5 {
+			return false
+		}
+		switch x := v.(type) {
+		case *ssa.Call:
+			return staticCalleeName(x) == "(*semver.Version).copy"
+		case *ssa.Phi:
+			for _, e := range x.Edges {
+				if !isCopy(e, d+1) {
+					return false
+				}
+			}
+			return true
+		}
+		return false
+	}
+	n := 0
+	var bad []string
+	var at token.Pos
+	for _, b := range f.Blocks {
+		for _, in := range b.Instrs {
+			c, ok := in.(*ssa.Call)
+			if !ok || staticCalleeName(c) != "semver.newSpan" {
+				continue
+			}
+			n++
+			at = c.Pos()
+			for i, a := range c.Common().Args {
+				if _, isPtr := a.Type().Underlying().(*types.Pointer); !isPtr {
+					continue
+				}
+				if !isCopy(a, 0) {
+					bad = append(bad, fmt.Sprintf("argument %d (%s)", i+1, a.Name()))
+				}
+			}
+		}
+	}
+	switch {
+	case n == 0:
+		r.bad(rule, key, p.pos(f.Pos()), "no call of newSpan in Intersect: anchor lost")
+	case len(bad) > 0:
+		r.bad(rule, key, p.pos(at), "newSpan rewrites the versions it is given (setTail on wildcards, build cleared) and is handed the operands' own bounds here ("+strings.Join(bad, ", ")+"): the operands of an intersection are modified, and intersections running concurrently on copies of one constraint race on them")
+	default:
+		r.ok(rule, key, p.pos(at), "every *Version argument is the result of Version.copy()")
+	}
 }
